@@ -13,8 +13,8 @@ CONSTANTS
   Contracts = {1, 2}
   MaxOps = 3
   EmitAt = 0
-INIT GInitTwo
-NEXT GNextCV
-VIEW GView
+INIT GInitCfg
+NEXT GNextCC
+VIEW GViewH
 CONSTRAINT GConstr
 CHECK_DEADLOCK FALSE
